@@ -275,7 +275,12 @@ def run_job(job, rec):
         rec.context = octx
         snaps = [snapshot(v) for v in (xa, ya, ea)]
         np.random.seed(int(rng.integers(2**31)))
-        opt = guarded(GpOptimiser, xa, ya, bounds=bounds, y_err=ea, acquisition=acq_cls, optimizer=opt_name)
+        okw = {}
+        if opt_name == "bfgs" and rng.random() < 0.3:
+            okw["n_processes"] = 2    # multi-start searches spread over worker processes
+            rec.count("optimisers:multi_process")
+            octx["n_processes"] = 2
+        opt = guarded(GpOptimiser, xa, ya, bounds=bounds, y_err=ea, acquisition=acq_cls, optimizer=opt_name, **okw)
         if isinstance(opt, Raised):
             rec.violation("raised", f"GpOptimiser construction raised {opt!r}", octx)
             continue
